@@ -42,7 +42,7 @@ def bounds(tier):
 
 
 LOADS = [("C2", "A", "b"), ("C1", "A"), ("C2", " ", "b"), ("SP", 0x37), ("EXT", "E", 0x12, 0x21), ("BS",), ("MRI",), ("MRP",)]
-CTRL_KINDS = {"SP", "EXT", "BS", "MRI", "MRP"}
+CTRL_KINDS = {"SP", "EXT", "BS", "MRI", "MRP", "MRIU", "MRPU"}
 
 
 def ev_words(ev, doubled):
@@ -52,7 +52,9 @@ def ev_words(ev, doubled):
         return [getattr(C, k)] * d
     if k == "PAC":
         _, row, col, italic, to = ev
-        unit = [C.pac(row, col, italic)] + ([C.tab(to)] if to else [])
+        # italic: False / True, or "U" (plain, underlined) / "IU" (italic, underlined): the underline bit is no concern of
+        # the property, but the codes that carry it address rows and switch italics like their plain twins
+        unit = [C.pac(row, col, italic in (True, "IU"), underline=italic in ("U", "IU"))] + ([C.tab(to)] if to else [])
         return unit * d
     if k == "C2":
         return [C.chars(ev[1], ev[2])]
@@ -68,6 +70,10 @@ def ev_words(ev, doubled):
         return [C.MR_ITALIC] * d
     if k == "MRP":
         return [C.MR_PLAIN] * d
+    if k == "MRIU":
+        return [C.word(0x11, 0x2F)] * d  # mid-row: italics, underlined
+    if k == "MRPU":
+        return [C.word(0x11, 0x21)] * d  # mid-row: white, underlined (italics off)
     raise ValueError(ev)
 
 
@@ -87,7 +93,7 @@ class Guard:
         k = ev[0]
         if k in CTRL_KINDS and self.prev == ev and not doubled:
             return False
-        if k in ("MRI", "MRP") and self.prev is not None and self.prev[0] in ("MRI", "MRP") and self.prev == ev:
+        if k in ("MRI", "MRP", "MRIU", "MRPU") and self.prev is not None and self.prev[0] in ("MRI", "MRP", "MRIU", "MRPU") and self.prev == ev:
             return False
         d = self.dec
         if k == "BS":
@@ -95,7 +101,7 @@ class Guard:
                 return False
             if self.kinds.get((d.row, d.col - 1)) != "char":
                 return False
-        n = {"C2": 2, "C1": 1, "SP": 1, "EXT": 1, "MRI": 1, "MRP": 1}.get(k, 0)
+        n = {"C2": 2, "C1": 1, "SP": 1, "EXT": 1, "MRI": 1, "MRP": 1, "MRIU": 1, "MRPU": 1}.get(k, 0)
         if n and d.col + n > 32:
             return False
         return True
@@ -112,7 +118,7 @@ class Guard:
                 self.kinds[(row, c)] = "char"
         elif k == "EXT":
             self.kinds[(row, col)] = "char"
-        elif k in ("MRI", "MRP"):
+        elif k in ("MRI", "MRP", "MRIU", "MRPU"):
             self.kinds[(row, col)] = "midrow"
         elif k == "BS":
             self.kinds.pop((row, d.col), None)
@@ -353,6 +359,7 @@ def shards(tier, seed):
         sh.append({"k": "three-captions", "first": fi})
     sh.append({"k": "tables"})
     sh.append({"k": "italic-rows"})
+    sh.append({"k": "underlined-codes"})
     return sh
 
 
@@ -375,7 +382,7 @@ def classify(kind, det, captions, klass):
     feats = set()
     for c in captions:
         for e in c:
-            if e[0] in ("MRI", "MRP"):
+            if e[0] in ("MRI", "MRP", "MRIU", "MRPU"):
                 feats.add("midrow")
             elif e[0] == "BS":
                 feats.add("backspace")
@@ -383,7 +390,7 @@ def classify(kind, det, captions, klass):
                 feats.add("extended")
             elif e[0] == "SP":
                 feats.add("special")
-            elif e[0] == "PAC" and e[3]:
+            elif e[0] == "PAC" and e[3] in (True, "IU"):
                 feats.add("italic-pac")
             elif e[0] == "PAC" and e[4]:
                 feats.add("tab-offset")
@@ -450,6 +457,28 @@ def run_shard(d):
             for third in FIRST:
                 for doubled in (False, True):
                     check_program(acc, [wrap(first), wrap(second), wrap(third)], doubled, "three-captions")
+    elif k == "underlined-codes":
+        # the underlined twins of the preamble and mid-row codes: same addressing, same italics switching
+        contents = [
+            [("C2", "A", "b")],
+            [("C2", "A", "b"), ("MRIU",), ("C2", "c", "d")],
+            [("C2", "A", "b"), ("MRPU",), ("C2", "c", "d")],
+            [("MRIU",), ("C2", "A", "b"), ("MRP",), ("C1", "c")],
+            [("C2", "A", "b"), ("MRI",), ("C2", "c", "d"), ("MRPU",), ("C1", "e")],
+            [("MRIU",), ("C2", "A", "b"), ("MRPU",), ("C2", "c", "d"), ("MRI",), ("C1", "e")],
+        ]
+        pacs = [False, True, "U", "IU"]
+        for doubled in (False, True):
+            for row in (15, 1, 8):
+                for it in pacs:
+                    for col, to in (((0, 0), (0, 2)) if it in (True, "IU") else ((0, 0), (4, 1), (28, 3))):
+                        for cont in contents:
+                            check_program(acc, [wrap([("PAC", row, col, it, to)] + cont)], doubled, "underlined-codes")
+            for it1 in pacs:
+                for it2 in pacs:
+                    for rows in ((1, 15), (14, 15), (7, 8)):
+                        check_program(acc, [wrap([("PAC", rows[0], 0, it1, 0)] + contents[1] + [("PAC", rows[1], 0, it2, 0)] + contents[2])], doubled, "underlined-codes")
+                        check_program(acc, [wrap(FIRST[6]), wrap([("PAC", rows[0], 0, it1, 0)] + contents[3] + [("PAC", rows[1], 0, it2, 0)] + contents[0])], doubled, "underlined-codes")
     elif k == "italic-rows":
         from mc.checks import c11
 
